@@ -41,7 +41,7 @@ def twin64(flow):
     return type(flow)(**kw)
 
 
-CUT = {"below": None}
+CUT = {"below": None, "prior_nan": False}
 
 
 def judge_pop(pop, t, flow64, recipe, name, where, viol, counters, need_lq=True):
@@ -58,6 +58,8 @@ def judge_pop(pop, t, flow64, recipe, name, where, viol, counters, need_lq=True)
         ref_ll = np.where(x[:, 0] < CUT["below"], -np.inf, ref_ll)
     if recipe:
         ref_ll = np.where(np.isfinite(ref_lp), ref_ll, -np.inf)
+    if CUT["prior_nan"]:
+        ref_lp = np.where(np.isfinite(ref_lp), ref_lp, np.nan)  # this user's prior is NaN outside its support
     refs = [("log_prior", pop["lp"], ref_lp), ("log_likelihood", pop["ll"], ref_ll)]
     if need_lq and pop.get("lq") is not None:
         ref_lq = np.asarray(to_np(flow64.log_prob(flow64.xp.asarray(x))), dtype=float)
@@ -74,7 +76,7 @@ def judge_pop(pop, t, flow64, recipe, name, where, viol, counters, need_lq=True)
             continue
         inf_mismatch = np.isinf(ref) != np.isinf(got)
         fin = np.isfinite(ref) & np.isfinite(got)
-        bad = inf_mismatch | (fin & (np.abs(got - ref) > rt * (1 + np.abs(ref)))) | np.isnan(got)
+        bad = inf_mismatch | (fin & (np.abs(got - ref) > rt * (1 + np.abs(ref)))) | (np.isnan(got) != np.isnan(ref))
         # next to a prior bound float32 rounding of x may flip inside/outside: skip rows within eps of a bound
         if f32 and bad.any():
             near = np.any((np.abs(x - t.lo) < 1e-5 * (1 + np.abs(t.lo))) | (np.abs(x - t.hi) < 1e-5 * (1 + np.abs(t.hi))), axis=1)
@@ -129,9 +131,11 @@ def run_case(case):
     viol = []
     g = np.random.default_rng(case["seed"])
     cfg = boundary.gen_case_cfg(g)
-    shown = {k: cfg.get(k) for k in ("sampler", "xp", "dtype", "n", "opts", "precond", "outside_mode", "recipe", "resume", "cut_below")}
+    shown = {k: cfg.get(k) for k in ("sampler", "xp", "dtype", "n", "opts", "precond", "outside_mode", "recipe", "resume", "cut_below", "prior_nan_outside")}
+    counters["runs_with_nan_prior_outside_support"] += int(bool(cfg.get("prior_nan_outside")))
     where = f"{shown}"
     CUT["below"] = cfg.get("cut_below")
+    CUT["prior_nan"] = bool(cfg.get("prior_nan_outside"))
     counters["runs_with_zero_likelihood_region"] += int(cfg.get("cut_below") is not None)
     try:
         out = boundary.execute(cfg)
